@@ -164,6 +164,13 @@ def gen_cases(rng, tier):
         src = [c for k, c in enumerate(src) if k % 3 == 0 or ":bye" in c[4]]
     for k, c in enumerate(src):
         cases.append(["ua%d" % k, "c08", "ua", c[2], c[3], c[4], c[5]])
+    # requests that reach the invite usage while the application's answer is still waiting for its ACK, or after it gave up waiting:
+    # whoever cannot use the request hands it back and the stack answers it
+    k = len(src)
+    for script in ("0:inv,100:accept,1000:bye,90000:options", "0:inv,100:accept,31000:bye,90000:options", "0:inv,100:accept,1000:info,90000:options",
+                   "0:inv,100:accept,1000:bye,2000:bye,90000:options", "0:inv,100:accept,40000:bye,90000:options", "0:inv,100:accept,200:ack,1000:bye,2000:bye,90000:options",
+                   "0:inv,100:reject:486,1000:bye,90000:options", "0:inv,100:accept,1000:update,33000:info,90000:options"):
+        cases.append(["ua%d" % k, "c08", "ua", "uas", "-", script, "1"]); k += 1
     cases += _dup_cases()
     return cases
 
